@@ -43,6 +43,72 @@ def _worker(job):
             "wall": time.time() - t0, "error": err, "rewritten": getattr(ctx, "rewritten", [])}
 
 
+def _child(job, conn):
+    try:
+        r = _worker(job)
+    except BaseException as e:      # never let a worker die silently
+        r = _failed(job, "".join(traceback.format_exception(type(e), e, e.__traceback__))[-3000:])
+    try:
+        conn.send(r)
+    except Exception as e:
+        conn.send(_failed(job, "result not picklable: %r" % (e,)))
+    conn.close()
+
+
+def _failed(job, err, undecided=None):
+    prop, tier, seed, cfg, canary = job
+    obls = []
+    if undecided:
+        from . import obl
+        obls = [{"name": "%s/run[%s]" % (prop, obl.cfg_name(cfg)), "short": "run", "status": "undecided", "backend": "none",
+                 "s": 0.0, "detail": undecided, "cfg": cfg}]
+        err = None
+    return {"cfg": cfg, "canary": canary, "obls": obls, "functions": [], "stubs": [], "assumed": [], "prims": {}, "generic": [],
+            "side": [], "z3s": 0.0, "z3q": 0, "z3_confirmed": 0, "bounded": [], "wall": 0.0, "error": err, "rewritten": []}
+
+
+def _run_tasks(work, nproc, timeout):
+    """One forked process per configuration, at most nproc at a time, each under a wall-clock limit.
+    A configuration that exceeds the limit or whose process dies is reported (undecided / crash), never lost."""
+    if nproc <= 1:
+        return [_worker(w) for w in work]
+    ctxmp = mp.get_context("fork")
+    pending = list(enumerate(work))
+    running = {}
+    results = [None] * len(work)
+    while pending or running:
+        while pending and len(running) < nproc:
+            i, w = pending.pop(0)
+            pr, pc = ctxmp.Pipe(False)
+            p = ctxmp.Process(target=_child, args=(w, pc))
+            p.start()
+            pc.close()
+            running[i] = (p, pr, time.time())
+        progressed = False
+        for i, (p, conn, t0) in list(running.items()):
+            if conn.poll(0):
+                try:
+                    results[i] = conn.recv()
+                except EOFError:
+                    results[i] = _failed(work[i], "worker closed its pipe without a result (exit code %s)" % p.exitcode)
+                p.join()
+                del running[i]
+                progressed = True
+            elif not p.is_alive():
+                results[i] = _failed(work[i], "worker process died (exit code %s)" % p.exitcode)
+                del running[i]
+                progressed = True
+            elif time.time() - t0 > timeout:
+                p.kill()
+                p.join()
+                results[i] = _failed(work[i], None, undecided="configuration exceeded the %.0f s limit" % timeout)
+                del running[i]
+                progressed = True
+        if not progressed:
+            time.sleep(0.02)
+    return results
+
+
 def load_known():
     p = os.path.join(VERIF, "known_findings.json")
     if not os.path.exists(p):
@@ -61,15 +127,7 @@ def run_check(prop, tier, seed, jobs=None):
     canaries = list(getattr(L, "canaries", lambda t: [])(tier))
     work = [(prop, tier, seed, c, None) for c in cfgs] + [(prop, tier, seed, c, k) for (c, k) in canaries]
     nproc = int(os.environ.get("VF_JOBS", "0")) or min(16, os.cpu_count() or 1)
-    results = []
-    if nproc > 1 and len(work) > 1:
-        ctxmp = mp.get_context("fork")
-        with ctxmp.Pool(min(nproc, len(work)), maxtasksperchild=1) as pool:
-            for r in pool.imap_unordered(_worker, work, chunksize=1):
-                results.append(r)
-    else:
-        for w in work:
-            results.append(_worker(w))
+    results = _run_tasks(work, nproc if len(work) > 1 else 1, float(os.environ.get("VF_CONFIG_TIMEOUT", "900" if tier == "quick" else "3600")))
     crashes = [r for r in results if r["error"]]
     main = [r for r in results if r["canary"] is None]
     can = [r for r in results if r["canary"] is not None]
